@@ -615,7 +615,7 @@ class World:
                 chans.append('%d:u' % k)
         c = self.client
         return 'chani=%d chans=%s dns=%s udp=%s' % (
-            m.chani, join_or(',', chans),
+            getattr(m, 'chani', -1), join_or(',', chans),
             join_or(',', ('%d@%d' % (k, round(v * TICKS)) for k, v in c.dnsreqs.items())),
             join_or(',', ('%s>%d@%d' % (show_addr(k), v[0], round(v[1] * TICKS)) for k, v in c.udp_by_src.items())))
 
